@@ -1,87 +1,8 @@
-"""Trigger predicates of the open C10 findings (string cases of harness/props/C10.py).
+"""Trigger predicates of the open C10 findings: there is none at present.
 
-Each predicate decides from the *case* (W, first, the source line): the triggering feature is present, and the
-same line with only that feature removed passes the oracle, so that another violation on the same line is still
-reported."""
-import re
+The four findings this module used to recognise (blank text reaching the limit before a '$'; a C beyond column 5
+taken for a comment line; a hyphenated word split at the limit; tabs measured as one column) were repaired by
+/repo commits 6283f05 and c3da1f2 and are listed in findings/C10.fixed.json; their inputs are regression cases in
+corpus/C10/fixed-*.json: if one of them fails again the check reports a VIOLATION."""
 
-
-def _line_case(case):
-    c = case.get("case")
-    if not c or "string" not in c or not str(case.get("kind", "")).startswith("string-"):
-        return None
-    if "\n" in c["string"]:
-        return None
-    return c
-
-
-def _passes(c, line, depth=2):
-    """the line with the triggering feature removed passes — or fails in a way that is itself explained by an open
-    finding (a line can carry two known defects); any other failure keeps the case a violation"""
-    import props.C10 as C10
-    r = C10.string_oracle_line(line, c["W"], c["first"], c.get("before"))
-    if r is None:
-        return True
-    if depth <= 0:
-        return False
-    case2 = {"kind": r[0], "detail": r[1], "case": dict(c, string=line), "_depth": depth - 1}
-    return any(t(case2, {}) for t in TRIGGERS)
-
-
-def _ref(c):
-    return (("" if c["first"] else " " * 5) + c["string"]).expandtabs(8)
-
-
-def C10_blank_data_reaches_limit(case, params):
-    """F-C10-blank-data-reaches-limit: nothing but blanks before the first '$', and they reach the column limit."""
-    c = _line_case(case)
-    if c is None or case["kind"] != "string-line-too-long" or "\t" in c["string"]:
-        return False
-    line = c["string"]
-    if "$" not in line:
-        return False
-    data = line.split("$", 1)[0]
-    ii = 0 if c["first"] else 5
-    if data.strip() or ii + len(data) < c["W"]:
-        return False
-    return _passes(c, " " * 5 + line[len(data):], case.get("_depth", 2))
-
-
-def C10_c_beyond_column_5(case, params):
-    """F-C10-c-beyond-column-5: the written line has its 'c ' after five or more blanks (a continuation line that
-    carries data for MCNP) but utilities.is_comment takes it for a comment line."""
-    c = _line_case(case)
-    if c is None or "\t" in c["string"].lstrip("\t"):
-        return False
-    ref = _ref(c)
-    m = re.match(r"^( {5,})[cC] ", ref)
-    if not m or len(ref) <= c["W"]:
-        return False
-    # the same text with another first word is wrapped correctly
-    line = c["string"]
-    k = len(line) - len(line.lstrip())
-    return _passes(c, line[:k] + "x" + line[k + 1:], case.get("_depth", 2))
-
-
-def C10_hyphenated_token_split(case, params):
-    """F-C10-hyphenated-token-split: a data token with letters around a hyphen ('be-met.40t') is broken at the
-    hyphen by textwrap (break_on_hyphens)."""
-    c = _line_case(case)
-    if c is None or case["kind"] != "string-data-tokens" or "\t" in c["string"]:
-        return False
-    data = c["string"].split("$", 1)[0]
-    if not re.search(r"\S-+\S", data):        # a hyphen (or a run of them) inside a token
-        return False
-    return _passes(c, data.replace("-", "_") + c["string"][len(data):], case.get("_depth", 2))
-
-
-def C10_tab_columns(case, params):
-    """F-C10-tab-columns: the line contains a tab; _wrap_line measures and splits the raw text, textwrap and MCNP
-    the text with the tabs expanded."""
-    c = _line_case(case)
-    if c is None or "\t" not in c["string"]:
-        return False
-    return _passes(c, c["string"].expandtabs(8), case.get("_depth", 2))
-
-
-TRIGGERS = [C10_blank_data_reaches_limit, C10_c_beyond_column_5, C10_hyphenated_token_split, C10_tab_columns]
+TRIGGERS = []
